@@ -48,16 +48,32 @@ claim("C03", "proof",
       "tet is a flag corner < edge < face < cell, no two tets share their vertices, and every surface-carrying face occurs "
       "once with each orientation (orientation sweep over the real tables + translation invariance), so the marching-tets "
       "hypothesis is DISCHARGED there: the mesh is watertight, consistently oriented and edge-manifold for every inside / "
-      "outside assignment that keeps the outermost cell layer empty (hypothesis shown necessary).  NOT proved: grids with "
-      "cells of different octree levels (minimal-edge rule, collapsed cells, topology-safe collapse tests, the simplex "
-      "mesher's minimum-level vertex selection).  Those are decided by the oracle: "
+      "outside assignment that keeps the outermost cell layer empty (hypothesis shown necessary).  Dual contouring on ADAPTIVE "
+      "octrees (Render/OctTree.v + OctTreeGeom / Collect / Net / Face / Sem.v, 2600 lines, no axioms): the model covers the "
+      "topological part of DCTree<3>::collectChildren (merging, the 256-entry cornersAreManifold table read from dc_tree3.cpp "
+      "by the translator and proved to mean 'filled and empty corners are each connected along cube edges', isManifold of "
+      "every child, leafsAreManifold with its 12 edge / 6 face / 1 centre tests, collapse into a leaf of level region.level; "
+      "the numerical tests are an arbitrary oracle), the recursive walk Dual<3>::work / call_face3 / face3 / call_edge3 / "
+      "edge3 and DCMesher::load (minimum-level rule, patch lookup for finest leaves, vertex 0 for collapsed ones, "
+      "push_triangle dropping triangles with a repeated vertex; the normal-dependent diagonal an arbitrary oracle); theorems: "
+      "collapsing preserves the lattice-sign invariant; on EVERY consistent tree - leaves of any mix of levels, pruned cells "
+      "of any size - and for every choice of diagonals the triangle soup is watertight and consistently oriented "
+      "(C03_dc_adaptive_closed), no triangle repeats a vertex, every corner is a real patch vertex, every triangle stems "
+      "from one load call on the four cells around a minimal edge; the whole pipeline prune + subdivide + collapse + walk is "
+      "closed for every lattice sign function with a clear region boundary; necessity of the clear boundary by a "
+      "kernel-checked counter-example.  Tie: for 24 (thorough 1500) random CSG solids the harness dumps the implementation's "
+      "octree before and after collapsing (max_err from 1e-8 to 1e9, walk with 1..8 workers) with the triangles of its walk; "
+      "the extracted ocollect must rebuild the collapsed tree exactly, the extracted walk must emit the implementation's "
+      "triangles (as a multiset, each quad with either diagonal), and the extracted checkers decide the theorem's hypotheses "
+      "on those trees.  NOT proved: the simplex and hybrid meshers on grids with cells of different levels (the simplex "
+      "mesher's minimum-level vertex selection, collapsed cells - see the recorded finding).  Those are decided by the oracle: "
       "Mesh::render of random closed CSG solids (rotated primitives, sharp and smooth) x 3 algorithms x workers 1..16 x "
       "resolutions x merging on/off: edge balance, no repeated vertex, valid indices, no unreferenced vertex, edge-manifold "
       "for simplex / hybrid.  Ties for the grid models: uniform-grid renders (max_err = -1) of the implementation against the "
       "extracted models on the implementation's own lattice / subspace-vertex signs (triangle and vertex counts for dual "
       "contouring, triangle counts for the simplex mesher).  Known finding: holes of the simplex mesher when cells collapse.",
-      "Trusted: Coq kernel (no axioms); translate/gen_tables.py; harness audit_mesh; OS-sampled interleavings (no schedule "
-      "perturbation hook was added for this property).",
+      "Trusted: Coq kernel (no axioms); translate/gen_tables.py; harness audit_mesh and octree dump; ocaml/otdriver.ml (reads the "
+      "lattice signs off the uncollapsed tree); OS-sampled interleavings (no schedule perturbation hook was added for this property).",
       "source-to-Coq table translation + Coq proof (finite sweep over the table + face-pairing argument); runtime mesh audit",
       "DESIGN.md section 6, C03")
 
@@ -71,7 +87,11 @@ claim("C04", "proof",
       "point from the inside to the outside lattice point; (c) over R^3 with grid spacing h: a sign-changing edge of a field "
       "continuous along it carries a zero lying in the four cells around it, so a quad vertex that lies in its own cell (C19 "
       "for simplex / hybrid; an explicit hypothesis, NOT guaranteed by dual contouring - see the finding) is within sqrt(3) h of "
-      "the zero set; (d) a feature thinner than the grid is invisible to corner signs (refutation of the converse).  The "
+      "the zero set; (d) a feature thinner than the grid is invisible to corner signs (refutation of the converse); (e) on "
+      "ADAPTIVE octrees (Render/OctTree.v, shared with C03, tied to the implementation's own collapsed trees and triangles): "
+      "the dual-contouring mesh of any consistent tree has no boundary edge - no hole to leak through - for every verdict of "
+      "the collapse tests and every choice of diagonals, and every triangle stems from a lattice edge whose surrounding cells are "
+      "ambiguous leaves and whose smallest cell sees a sign change (pruned cells carry no surface).  The "
       "separation statement for real renders on adaptive octrees (winding number 1 inside / 0 outside away from the surface; "
       "vertices in the region and near the zero set) is decided by the oracle on the implementation: generalised winding numbers "
       "(solid-angle sums) at random points further than 1.5 feature sizes from the surface, vertex containment and |field| at "
@@ -106,7 +126,7 @@ claim("C10", "proof",
       "code's tests), the soup of EVERY consistent tree - leaves of any mix of levels, pruned cells of any size - is a disjoint "
       "union of directed cycles, and prune + collapse + walk + weld returns closed polylines for every lattice sign function "
       "with a clear region boundary, every depth and every verdict of the numerical tests; necessity of the collapse tests and "
-      "of the clear boundary by kernel-checked counter-examples.  Tie: for 60 (thorough 1500) random shapes the harness dumps "
+      "of the clear boundary by kernel-checked counter-examples.  Tie: for 60 (thorough 6000) random shapes the harness dumps "
       "the implementation's quadtree before and after collapsing (max_err from 1e-8 to 1e9) with the raw directed segments of "
       "its walk; the extracted collect must rebuild the collapsed tree exactly, the extracted walk must emit exactly the "
       "implementation's segments, and the extracted checkers decide the theorem's hypotheses on those trees.  Oracle (not "
